@@ -156,8 +156,11 @@ def ownership(P, R, rule='C14.OWN.1'):
     R.floor(rule, 3, 'pointer moves from the scratch tree')
 
 
-def scanner_typestate(f, ptr_pred, rule, R, what, ctype_ok=('isspace', 'isdigit', 'isalpha', 'isalnum'), stop=None, exit_check=True):
+def scanner_typestate(f, ptr_pred, rule, R, what, ctype_ok=('isspace', 'isdigit', 'isalpha', 'isalnum'), stop=None, exit_check=True, last_before_nul=None):
     """Typestate for a scan over a NUL-terminated buffer.  States describe the byte under the pointer:
+    (`last_before_nul`: when the producer of the buffer is known to put one fixed byte right before the terminating
+    NUL, a byte known to be a DIFFERENT character is not the last one, so the position after it - state 'inner' -
+    is still in front of the terminator and may be stepped over untested; ('is', c) = byte known to equal c.)
     'cur?' valid position, byte untested; 'curNZ' byte known non-NUL; 'curZ' byte known NUL;
     ('over', v) the pointer has just been advanced over a byte that was read into v ('' = compared
     in place) and may have been the NUL; 'out' the pointer is one past the NUL.
@@ -204,32 +207,43 @@ def scanner_typestate(f, ptr_pred, rule, R, what, ctype_ok=('isspace', 'isdigit'
             return any(cur_test(x) for x in walk(l['l']['index']))
         return False
 
+    def is_nz(st):
+        return st == 'curNZ' or (isinstance(st, tuple) and st[0] == 'is')
+
+    def after(st):
+        """state of the position after a byte known to be non-NUL"""
+        if isinstance(st, tuple) and st[0] == 'is' and last_before_nul is not None and st[1] != last_before_nul:
+            return 'inner'
+        return 'cur?'
+
     def on_event(st, s):
         ev = s.ev
         if ev['k'] == 'store' and ptr_pred(ev.get('lhs')):
             op = ev.get('op')
             if op == '++':
                 k = kind.get(ev.get('id'), 'plain')
+                if st == 'inner':
+                    return 'cur?'
                 if k == 'readadv':
                     if st == 'cur?':
                         return ('over', valvar.get(ev.get('id'), ''))
-                    if st == 'curNZ':
-                        return 'cur?'
+                    if is_nz(st):
+                        return after(st)
                     if st == 'curZ':
                         return 'out'
                     if isinstance(st, tuple) and st[0] == 'out':
                         st = 'out'
                     problems.append((s, 'a byte is read and stepped over although the previous byte stepped over was never tested against the terminating NUL'))
                     return ('over', valvar.get(ev.get('id'), ''))
-                if st != 'curNZ':
+                if not is_nz(st):
                     problems.append((s, 'the scan pointer is advanced over a byte that is not known to be non-NUL (state %s)' % (st if isinstance(st, str) else st[0])))
-                return 'cur?'
+                return after(st)
             if op == '--':
                 return 'curZ' if (st == 'out' or (isinstance(st, tuple) and st[0] == 'out')) else 'cur?'
             if op == '+=':
                 rhs = ev.get('rhs') or {}
                 if rhs.get('k') == 'callref' and rhs.get('callee') in ('strcspn', 'strspn', 'strlen') and rhs.get('args') and ptr_pred(rhs['args'][0]) \
-                        and (st in ('cur?', 'curNZ', 'curZ')):
+                        and (st in ('cur?', 'curNZ', 'curZ', 'inner') or is_nz(st)):
                     # a span measured from the cursor itself ends at or before the terminating NUL
                     return 'curZ' if rhs['callee'] == 'strlen' else 'cur?'
                 problems.append((s, 'the scan pointer jumps ahead by a computed amount'))
@@ -282,14 +296,21 @@ def scanner_typestate(f, ptr_pred, rule, R, what, ctype_ok=('isspace', 'isdigit'
             if st[1] and is_var(l, st[1]) and (nz or (op == '!=' and c == 0)):
                 return None
             return st
-        if st in ('cur?', 'curNZ', 'curZ'):
+        if st in ('cur?', 'curNZ', 'curZ', 'inner') or is_nz(st):
             if cur_test(l):
+                if isinstance(st, tuple):
+                    # the byte is known: decide the test
+                    if isinstance(c, int) and op in ('==', '!='):
+                        return st if ((st[1] == (c & 255)) == (op == '==')) else None
+                    return st
                 if nz:
-                    return None if st == 'curZ' else 'curNZ'
+                    if st == 'curZ':
+                        return None
+                    return ('is', c & 255) if (op == '==' and isinstance(c, int)) else 'curNZ'
                 if z:
-                    return None if st == 'curNZ' else 'curZ'
+                    return None if st == 'curNZ' else ('inner' if st == 'inner' else 'curZ')
             if ctype_lookup(l) and op == '!=' and c == 0:
-                return 'curNZ'
+                return st if is_nz(st) else 'curNZ'
         return st
     before, at_exit, sin, bout = f.forward('cur?', on_event, on_edge, stop=(stop.bid, stop.idx) if stop is not None else None)
     for st in (at_exit if exit_check else ()):
@@ -338,6 +359,9 @@ def bounds(P, R):
                 for t in tail.values():
                     if not (rf.path_avoiding(None, lambda u, t=t: u.key == t.key, target=r.bid, from_entry=True) is None or any(u.key == t.key for u in rf.block_sites(r.bid)[:r.idx])):
                         ok = False
+    sentinel = const_of(tail[K - 2].ev.get('rhs')) if ok and K >= 2 else None
+    if sentinel == 0:
+        sentinel = None
     R.ob('C14.BND.1', ok, al[0] if al else rf, 'the file buffer has size+K bytes, every byte after the file\'s contents is written and the last one is the NUL, before it is returned', key='file-buffer')
     rd = [s for s in rf.calls('fread')]
     R.ob('C14.BND.1', bool(rd) and on_path(rd[0].ev['args'][1], 'st_size') or (bool(rd) and on_path(rd[0].ev['args'][2], 'st_size')), rd[0] if rd else rf, 'at most size bytes are read into it', key='file-read', nontrivial=False)
@@ -358,9 +382,9 @@ def bounds(P, R):
     # restrict to the first pass: from the first assignment of the scan variable to the allocation
     alloc = [s for s in ps.stores() if (s.ev.get('rhs') or {}).get('callee') == 'xmalloc']
     first_alloc = min(alloc, key=lambda s: s.line) if alloc else None
-    n = scanner_typestate(ps, lambda e: is_var(e, endv), 'C14.BND.2', R, 'quoted-string scan', stop=first_alloc)
+    n = scanner_typestate(ps, lambda e: is_var(e, endv), 'C14.BND.2', R, 'quoted-string scan', stop=first_alloc, last_before_nul=sentinel)
     ws = P.need_fn('conf_parse_whitespace')
-    n += scanner_typestate(ws, lambda e: is_field(e, 'curr', 'conf_parse'), 'C14.BND.2', R, 'whitespace/comment skipper')
+    n += scanner_typestate(ws, lambda e: is_field(e, 'curr', 'conf_parse'), 'C14.BND.2', R, 'whitespace/comment skipper', last_before_nul=sentinel)
     # the decoder's buffer: scanned length + 1, one store per iteration step
     if first_alloc is not None:
         szs = [s for s in ps.stores() if s.ev['k'] == 'store' and is_field(s.ev['lhs'], 'size') and ps.before(s, first_alloc)]
